@@ -283,7 +283,13 @@ class _AuthMiddleware:
         exempt = (
             req.method == "OPTIONS"
             or req.path.startswith("/.well-known/")
-            or any(req.path.startswith(pfx) for pfx in self._exempt_prefixes)
+            # An entry ending in "/" exempts a subtree (``{prefix}/_oauth/``);
+            # any other entry (``{prefix}/health``) is one exact path.  A
+            # prefix match on the latter would also exempt RPC methods whose
+            # names merely start with it (``healthcheck``, ``health/init``).
+            or any(
+                (req.path.startswith(pfx) if pfx.endswith("/") else req.path == pfx) for pfx in self._exempt_prefixes
+            )
         )
         if self._authenticate is None or exempt:
             tc = _TransportContext(auth=_ANONYMOUS, transport_metadata=transport_metadata)
